@@ -255,6 +255,26 @@ Section Emod.
     end.
 End Emod.
 
+(* ---- pxcorr.py: get_pixelation_delta for feat_corr = "deform" ---------- *)
+(* corr_deform_with_area_um / corr_deform_with_volume: an offset plus three
+   exponential decays in the abscissa measured in pixels; [expo] is the
+   oracle for np.exp *)
+Definition pxdelta (expo : Q -> Q) (f : feat) (px x : Q) : Q :=
+  match f with
+  | Area =>
+      let s := sq ((34 # 100) / px) in
+      (12 # 10000)
+      + (20 # 1000) * expo (- x * s / (71 # 10))
+      + (10 # 1000) * expo (- x * s / (386 # 10))
+      + (5 # 1000) * expo (- x * s / 296)
+  | Volume =>
+      let s := cube ((34 # 100) / px) in
+      (13 # 10000)
+      + (172 # 10000) * expo (- x * s / 40)
+      + (70 # 10000) * expo (- x * s / 450)
+      + (32 # 10000) * expo (- x * s / 6040)
+  end.
+
 (* ---- evaluation interface for the correspondence check ---------------- *)
 (* oracle values are handed over as finite tables *)
 Fixpoint lookupq (x : Q) (tab : list (Q * Q)) : Q :=
@@ -277,19 +297,19 @@ Definition enc_all (r : option (list (option Q))) : list Z :=
   | Some l => flat_map enc_res l
   end.
 
-(* a case: setup, medium (kind, values), events, delta table (abscissa ->
-   delta), eta table (temperature -> viscosity), triangles *)
+(* a case: setup, medium (kind, values), events, exp table (argument ->
+   np.exp(argument)), eta table (temperature -> viscosity), triangles *)
 Record case := mkCase {
   c_setup : setup;
   c_medium : medium;
   c_events : list event;
-  c_delta : list (Q * Q);
+  c_exp : list (Q * Q);
   c_eta : list (Q * Q);
   c_tris : list triangle
 }.
 
 Definition run_case (L : lut) (c : case) : list Z :=
   enc_all (get_emodulus (fun _ => c_tris c)
-                        (fun _ _ x => lookupq x (c_delta c))
+                        (pxdelta (fun a => lookupq a (c_exp c)))
                         (fun t => lookupq t (c_eta c))
                         L (c_setup c) (c_medium c) (c_events c)).
